@@ -141,7 +141,7 @@ func corrC01(r *Run) {
 		"header-only frames with non-zero status), Marshal -> ReadPDU under a random read schedule; non-trivial = distinct (type, value) with a body; distinct by canonical value"
 	ts := pduTypes()
 	n := r.N(30, 800)
-	caseBudget := r.N(330, 6000)
+	caseBudget := r.N(264, 6000)
 	bigBudget := r.N(14, 400) // frames of several KiB are slow to parse inside coqc: a fixed number per run
 	vol := &pduVolume{maxLen: 2500}
 	defer vol.diff(r)
